@@ -146,6 +146,7 @@ fn child(name: &str, args: &[String]) -> i32 {
         "c15smoke" => child::child_main::<c15::Smoke>(args, c15::smoke_child),
         "c16" => child::child_main::<engine::ReplayFile>(args, c16::child_replay),
         "c08global" => child::child_main::<c08::Global>(args, c08::global_child),
+        "c04tls" => child::child_main::<c04::Teardown>(args, c04::teardown_child),
         "c11tls" => child::child_main::<c11::Teardown>(args, c11::teardown_child),
         "c11stderr" => child::child_main::<c11::Teardown>(args, c11::broken_stderr_child),
         "c16real" => child::child_main::<c16::RealClockChild>(args, c16::real_clock_child),
